@@ -8,6 +8,9 @@ CONSTANTS
   PubPaths = {1, 2}
   MaxRuns = 2
   Modes = {"image"}
+  Iters = {1, 2}
+  OutPaths = {0, 1, 2}
+  MaxSteps = 2
   Variant = "ok"
 INVARIANT OrderIrrelevant
 CHECK_DEADLOCK FALSE
